@@ -77,6 +77,7 @@ func runSolver(s Solver, query string, dir, tag string, timeout time.Duration, s
 // Decide runs the portfolio on one query. z3-new first with a short budget,
 // then all solvers raced.
 func Decide(query, dir, tag string, timeout time.Duration, seed int) Verdict {
+	query = destring(query)
 	quick := 3 * time.Second
 	if quick > timeout {
 		quick = timeout
